@@ -106,6 +106,9 @@ pub fn mutate_bytes(e: &mut Ent, b: &mut Vec<u8>) -> &'static str {
 /// Generates a whole case. `cfg.odd_labels` etc. decide the label pools.
 pub fn gen_case(e: &mut Ent, cfg: &TypeCfg, allow_mutation: bool) -> Option<Case> {
     let (env, sc) = gen_env(e, cfg);
+    if cfg.refs && !env.defs.is_empty() && e.ratio(1, 8) {
+        return gen_primed_refs(e, env, sc, cfg);
+    }
     let nargs = match e.below(6) {
         0 => 0,
         1 | 2 | 3 => 1,
@@ -207,6 +210,73 @@ pub fn gen_case(e: &mut Ent, cfg: &TypeCfg, allow_mutation: bool) -> Option<Case
         exp_tys,
         relation,
     })
+}
+
+/// Several references over one (possibly mutually recursive) environment, read at
+/// optional references over a copy of the environment in which one definition is
+/// edited: each argument needs a subtype check between the two families of
+/// definitions, some of them fail below `opt` and are backed out of, and later
+/// ones must not see anything the failed ones assumed.
+fn gen_primed_refs(e: &mut Ent, mut env: Env, sc: crate::gen::types::Scope, cfg: &TypeCfg) -> Option<Case> {
+    use crate::checks::c05::prime;
+    use crate::refmodel::rtype::Lab;
+    let names: Vec<String> = env.defs.iter().map(|d| d.0.clone()).collect();
+    let mut copies: Vec<(String, Ty)> = env.defs.iter().map(|(n, t)| (format!("{n}_new"), prime(t, &names))).collect();
+    let k = e.below(copies.len());
+    let d = *e.pick(&[Dir::Unrelated, Dir::Unrelated, Dir::Super, Dir::Sub]);
+    let edited = step(e, &env, &sc, &copies[k].1, d, cfg, 0);
+    if std::mem::discriminant(&edited) == std::mem::discriminant(&copies[k].1) && !matches!(edited, Ty::Var(_)) {
+        copies[k].1 = edited;
+    }
+    let wire_env = env.clone();
+    env.defs.extend(copies);
+    let n = e.range(2, 4);
+    let mut refs: Vec<Ty> = vec![];
+    for _ in 0..n {
+        let v = Ty::Var(names[e.below(names.len())].clone());
+        let f = match e.below(4) {
+            0 => Ty::Func { args: vec![v], rets: vec![], modes: vec![] },
+            1 => Ty::Func { args: vec![], rets: vec![Ty::vec(v)], modes: vec![] },
+            _ => Ty::Func { args: vec![], rets: vec![v], modes: vec![] },
+        };
+        refs.push(if e.ratio(1, 5) { Ty::Service(vec![("m".into(), f)]) } else { f });
+    }
+    let as_record = e.bool();
+    let wire_tys: Vec<Ty> = if as_record {
+        vec![Ty::Record(refs.iter().enumerate().map(|(i, t)| (Lab::Id(i as u32), t.clone())).collect())]
+    } else {
+        refs.clone()
+    };
+    let exp_refs: Vec<Ty> = refs
+        .iter()
+        .map(|t| {
+            let p = prime(t, &names);
+            if e.ratio(5, 6) {
+                Ty::opt(p)
+            } else {
+                p
+            }
+        })
+        .collect();
+    let exp_tys: Vec<Ty> = if as_record {
+        vec![Ty::Record(exp_refs.iter().enumerate().map(|(i, t)| (Lab::Id(i as u32), t.clone())).collect())]
+    } else {
+        exp_refs
+    };
+    let mut b = Builder::new(&wire_env);
+    let mut roots = vec![];
+    for t in &wire_tys {
+        roots.push(b.ty(t).ok()?);
+    }
+    let g = b.graph;
+    let vg = ValGen::new(&g);
+    let mut wire_vals = vec![];
+    for r in &roots {
+        wire_vals.push(vg.gen(e, *r, 5)?);
+    }
+    let layout = gen_layout(e);
+    let bytes = encode_message(&g, &roots, &wire_vals, &layout);
+    Some(Case { env, wire_tys, wire_vals, layout, bytes, mutated: None, exp_tys, relation: "primed-references" })
 }
 
 #[derive(Debug)]
